@@ -143,7 +143,15 @@ async fn episode(p: &EpParams) -> EpReport {
         url = e.url.clone();
         ep = Some(e);
     }
-    if cx.create_sub_full(&sp, &t, DEADLINE_S as i32, Some(&url), HashMap::new()).await.is_err() {
+    // (half of the subscriptions carry endpoint attributes in their push config: they configure the
+    // endpoint and are no part of any message)
+    let mut endpoint_attrs = HashMap::new();
+    if rng.chance(1, 2) {
+        endpoint_attrs.insert("x-goog-version".to_string(), "v1".to_string());
+        endpoint_attrs.insert("audience".to_string(), "someone".to_string());
+        rep.inc("push_config_with_endpoint_attributes");
+    }
+    if cx.create_sub_full(&sp, &t, DEADLINE_S as i32, Some(&url), endpoint_attrs).await.is_err() {
         rep.inconclusive("create push subscription failed");
         return rep;
     }
@@ -456,7 +464,7 @@ fn failure_known(r: &PostRec) -> Option<Vt> {
         Behaviour::Status(s) if matches!(s, 200 | 201 | 202 | 204) => None,
         Behaviour::Status(_) | Behaviour::ResetAfterRequest | Behaviour::Refuse => r.vt_answer,
         Behaviour::Late(d, _) if *d >= DEADLINE_S + MARGIN_S => Some(r.vt_begin + DEADLINE_S * SEC),
-        Behaviour::Late(..) => None,
+        Behaviour::Late(..) | Behaviour::LateMs(..) => None,
     }
 }
 
